@@ -27,6 +27,10 @@ QUICK = [
     ("finish_vs_enable", False, True, [["finish"], ["enable"]]),
     # a bar born hidden: steady tick enabled first, the terminal given afterwards; the ticker is there, so the manual ticks stay without effect
     ("manual_hidden_enable_show", False, False, [["enable", "show", "tick", "tick"], ["tick"]]),
+    # suspend (the closure runs under the locks), set_message and inc against the other calls
+    ("suspend_vs_tick_ticker", False, True, [["suspend"], ["tick"]]),
+    ("multi_suspend_vs_finish", True, False, [["suspend"], ["finish"]]),
+    ("multi_setmsg_inc_println", True, True, [["set_message"], ["inc"], ["println"]]),
     ("multi_tick_vs_remove", True, False, [["tick"], ["mp_remove"]]),
     ("multi_remove_vs_finish_ticker", True, True, [["finish"], ["mp_remove"]]),
     ("multi_remove_println_mpprintln", True, False, [["mp_remove"], ["println"], ["mp_println"]]),
@@ -34,7 +38,7 @@ QUICK = [
     ("multi_insert_after_vs_tick", True, False, [["mp_insert_after"], ["tick"]]),
     ("multi_insert_after_vs_finish_ticker", True, True, [["finish"], ["mp_insert_after"]]),
 ]
-CALLS = ["tick", "update", "finish", "println", "disable", "enable"]
+CALLS = ["tick", "update", "finish", "println", "disable", "enable", "inc", "set_message", "suspend"]
 
 
 def programs(tier):
@@ -49,8 +53,8 @@ def programs(tier):
                     if {a, b} == {"mp_remove", "mp_insert_after"}:
                         continue
                     out.append(("p2_%s_%s_%d%d" % (a, b, multi, tk), multi, tk, [[a], [b]]))
-    for a in CALLS:
-        for b in CALLS:
+    for a in CALLS[:6]:
+        for b in CALLS[:6]:
             for c in ("disable", "enable", "finish"):
                 out.append(("p3_%s_%s_%s" % (a, b, c), False, True, [[a], [b], [c]]))
     return out
